@@ -3,6 +3,38 @@ from lib import flow
 TWO_DB = {"slots": {"a": {"db": "dba", "dbid": 1, "name": "cx"}, "b": {"db": "dbb", "dbid": 2, "name": "cx"}}}
 
 
+# every slot in a database of its own that does not exist before its first collection is created
+LATE_DB = {"slots": {"a": {"db": "dbx", "dbid": 5, "name": "ca"}, "b": {"db": "dby", "dbid": 6, "name": "cb"}}, "latedb": True}
+
+
+def _late_relevant(p):
+    """a slot without any record in the initial catalog gets its first incarnation after the listing step"""
+    init = p.get("init") or []
+    empty = {c["c"] for c in init} - {c["c"] for c in init if c.get("st") not in ("none", "")}
+    listed = False
+    for st in p.get("steps") or []:
+        if st.get("op") == "r" and st.get("kind") == "list":
+            listed = True
+        if listed and st.get("op") == "w" and st.get("kind") == "new" and st.get("c") in empty:
+            return True
+    return False
+
+
+def _expand(plans, tier):
+    out = []
+    late = 0
+    for i, p in enumerate(plans):
+        out.append(p)
+        if _late_relevant(p) and i % 3 != 1 and late < (60 if tier == "quick" else 4000):
+            late += 1
+            out.append(dict(p, plan=str(p["plan"]) + "-ldb", params=dict(p.get("params") or {}, **LATE_DB)))
+        if tier == "thorough" or i % 3 == 0 or p.get("src") == "directed":
+            out.append(dict(p, plan=str(p["plan"]) + "-dg", params=dict(p.get("params") or {}, idmode="digits")))
+        if (tier == "thorough" and i % 2 == 0) or i % 3 == 1 or p.get("src") == "directed":
+            out.append(dict(p, plan=str(p["plan"]) + "-ldb", params=dict(p.get("params") or {}, **LATE_DB)))
+    return out
+
+
 def _calls(t):
     return any(e.get("op") in ("start", "addp") for e in t["events"])
 
@@ -32,9 +64,9 @@ C = dict(
              depth=13, cap={"quick": 20, "thorough": 300}),
     ],
     # catalog variant: collection ids whose lexicographic (etcd listing) order is the reverse of their creation order
-    expand_plans=lambda plans, tier: [q for i, p in enumerate(plans) for q in
-                                      ([p] + ([dict(p, plan=str(p["plan"]) + "-dg", params=dict(p.get("params") or {}, idmode="digits"))]
-                                              if (tier == "thorough" or i % 3 == 0 or p.get("src") == "directed") else []))],
+    # catalog variants: collection ids whose lexicographic (etcd listing) order is the reverse of their creation order ("-dg");
+    # databases that are created while the tasks run, right before their first collection ("-ldb")
+    expand_plans=_expand,
     directed="plans/C13.jsonl",
     trace=("CatalogWatch_Trace", "CatalogWatch_Trace.cfg"),
     death="violation",
@@ -52,7 +84,7 @@ C = dict(
         "registration (client Watch() returns before the server has registered the watcher) is not controlled",
         "a call counts as missed only after: sentinel objects written after the plan's last write were delivered through both "
         "watch goroutines, then 8 s of waiting, then fresh sentinels and 4 more seconds",
-        "one non-default partition name per collection incarnation; databases are never dropped in C13 plans; "
+        "one non-default partition name per collection incarnation; databases are never dropped in C13 plans (variant -ldb: a database is created right before its first collection); "
         "TLC exhaustiveness holds for the constants in the cfg files only",
     ],
 )
